@@ -353,6 +353,11 @@ MUST_BE_HARD = {"LookAround", "Backref", "AtomicGroup", "KeepOut", "ContinueFrom
 
 
 def analyzer_rule(run, ctx):
+    global LSETS
+    if getattr(run, "tier", "quick") == "thorough":
+        LSETS = [frozenset(s_) for r in (1, 2, 3) for s_ in itertools.combinations((0, 1, 2, 3), r)]
+    else:
+        LSETS = [frozenset(s_) for r in (1, 2) for s_ in itertools.combinations((0, 1, 2), r)] + [frozenset((0, 1, 2))]
     fam, label = "XFER", "Analyzer::visit"
     fn = S.get_fn(run, ctx, "analyze::Analyzer::visit", fam, label)
     if fn is None:
@@ -435,6 +440,9 @@ def analyzer_rule(run, ctx):
             # hard: (any child hard) => hard ; and unconditional for variants to_str cannot print
             cex = None
             pvals = {"lo": (0, 1, 2), "hi": (0, 1, 2, MAXI), "size": (0, 1), "group": (0, 1), "group_ix": (1, 2)}
+            if getattr(run, "tier", "quick") == "thorough":
+                pvals["lo"] = (0, 1, 2, 3)
+                pvals["hi"] = (0, 1, 2, 3, MAXI)
             pgrid = list(itertools.product(*[pvals.get(p[1], (0, 1)) for p in ps])) or [()]
             ogrid = list(itertools.product(*[(False, True) for _ in os_])) or [()]
             for pv in pgrid:
